@@ -134,6 +134,8 @@ class Frame_:
         self.base_len, self.depth, self.stack = base_len, depth, stack
         self.returns = []
         self.ret_heaps = []       # (condition relative to the frame, heap at that `return`)
+        self.ret_envs = []        # (condition, local environment at that `return`)
+        self.final_env = None     # environment at exit, merged over all exits (set by _run_frame)
         self.yields = []
 
 
@@ -219,6 +221,10 @@ class Interp:
             for c, h in reversed(fr.ret_heaps):
                 merged = h if merged is None else self._merge(c, h, merged)
             self.heap = merged
+        menv = dict(fr.env) if live.key != FALSE.key else None
+        for c, e_ in reversed(fr.ret_envs):
+            menv = dict(e_) if menv is None else self._merge(c, e_, menv)
+        fr.final_env = menv if menv is not None else dict(fr.env)
         rets = list(fr.returns)
         if live.key != FALSE.key:
             rets.append((live, NONE))
@@ -360,6 +366,7 @@ class Interp:
         fr.returns.append((rel, v))
         if not isinstance(fr.fi.node, ast.Lambda):
             fr.ret_heaps.append((rel, dict(self.heap)))
+            fr.ret_envs.append((rel, dict(fr.env)))
         self.emit('return', st, fr, value=v)
         return FALSE
 
@@ -432,7 +439,47 @@ class Interp:
                 elif isinstance(n, ast.Call) and isinstance(n.func, ast.Attribute) and \
                         n.func.attr in MUTATING_METHODS and isinstance(n.func.value, ast.Name):
                     names.add(n.func.value.id)
+                if isinstance(n, ast.Call):
+                    names |= self._mutated_actuals(n)
         return names
+
+    def _mutated_actuals(self, call):
+        """local names passed to a package function that modifies the corresponding parameter in place"""
+        fr = self.frames[-1] if self.frames else None
+        if fr is None:
+            return set()
+        from .argbind import resolve_callee
+        try:
+            rc = resolve_callee(self.prog, fr.fi, call)
+        except Exception:
+            rc = None
+        if rc is None:
+            return set()
+        callee, skip = rc
+        summ = self._summaries().get(callee.qual)
+        if not summ:
+            return set()
+        formals = callee.params()[1:] if skip else callee.params()
+        out = set()
+        for (kind, path), _ in summ['mutates'].items():
+            if kind != 'param':
+                continue
+            pname = path.split('.')[0]
+            if pname not in formals or '.' in path:
+                continue
+            i = formals.index(pname)
+            actual = call.args[i] if i < len(call.args) else next((k.value for k in call.keywords if k.arg == pname), None)
+            if isinstance(actual, ast.Name):
+                out.add(actual.id)
+        return out
+
+    def _summaries(self):
+        s_ = getattr(self.prog, '_effect_summaries', None)
+        if s_ is None:
+            from .effects import summaries
+            s_ = summaries(self.prog)
+            self.prog._effect_summaries = s_
+        return s_
 
     def _loop(self, st, fr, kind):
         self._loop_id += 1
